@@ -184,13 +184,16 @@ def run(pid):
                 tags.add("csv:%s=%s" % (k, val))
             if opts.get("mode"):
                 tags.add("mode:" + opts["mode"])
+            step = err["step"]
             if err["clause"] == "crash":
                 io = ev["io"]
                 bad_calls = {io["snap_calls"][i - 1] for i in err["expected"]}
                 tags |= {"at:" + c for c in bad_calls}
                 if bad_calls <= {"copy_open:db", "copy_data_half:db"}:
                     tags.add("copy_window_only")
-            step = err["step"]
+                prev = tr["events"][step - 2]["store"] if err["step"] > 1 else tr["init"]
+                if ev["store"] == prev:
+                    tags.add("contents_unchanged")      # a rewrite although nothing changed: not the known finding
             rep.violation(core.describe_failure(tr, err)[:1500],
                           {"kind": "csv", "auto_index": tr["auto_index"], "ops": [e["a"] for e in tr["events"][:step]],
                            "opts": {k: v for k, v in opts.items() if k != "prefill_points"}, "prefill": len(opts.get("prefill_points") or []),
